@@ -311,6 +311,15 @@ class MCSRules(LockModel):
                                loc_of(tail_w[0]) if tail_w else loc, 'one fetch_add(own node) on the predecessor\'s node' if good else 'found %s' % [(e['op'], show(e['value'])) for e in tail_w])
                 if tail_w:
                     self.rel_site('C08.LINK', fn, p, tail_w[0], 'link must be a release (the successor\'s node contents are read through it)')
+                    # from the moment it is linked, the predecessor (or the last member of its group) hands over by an RMW on the own
+                    # node and decides from the value it finds whether shared members still refer to its own node: the inherited state
+                    # is complete before the link
+                    late = [e for e in own_w if e['seq'] > tail_w[0]['seq']]
+                    self.sink.emit('MCS.LINK', 'ok' if not late else 'violated', '%s completes its own node before it links itself behind the predecessor' % name,
+                                   loc_of(late[0]) if late else loc_of(tail_w[0]),
+                                   'every write to the own node precedes the link' if not late else
+                                   '%s on the own node after the link: a predecessor that releases in between finds the node without the inherited state, '
+                                   'recycles its own node under the shared members that still use it, or its hand-over is applied to a half-written word' % late[0]['op'])
                 self.wait_check(fn, p, ctx, mode, name, arr, tail_w)
             else:
                 n_nopred += 1
